@@ -55,6 +55,8 @@ def is_link_lhs(e):
         return (o.get('k') == 'mem' and o.get('f') == 'a') or (o.get('k') == 'var')
     if e.get('k') == 'idx':
         return True
+    if e.get('k') == 'un' and e.get('op') == '*' and strip(e['e']).get('k') == 'var':
+        return True          # *link with link = &bucket / &node->next (pointer-to-link form)
     return False
 
 
